@@ -120,9 +120,14 @@ def audit(pid):
 # ------------------------------------------------------------------------------------------------
 # running the two sides
 
+TIER = ['quick']
+
+
 def run_py(lines, timeout):
     env = dict(os.environ)
     env['PYTHONDONTWRITEBYTECODE'] = '1'
+    if TIER[0] == 'thorough':
+        env.setdefault('RMK_CASE_TIMEOUT', '120')   # deeper types and longer histories; the limit guards against hangs only
     p = subprocess.run([PY, '-B', os.path.join(HERE, 'pyimpl.py')], input='\n'.join(lines) + '\n',
                        capture_output=True, text=True, timeout=timeout, env=env)
     out = p.stdout.split('\n')
@@ -264,6 +269,7 @@ def main():
         print('replay: no finding')
         sys.exit(0)
     tier = args[1] if len(args) > 1 else os.environ.get('VERIF_TIER', 'quick')
+    TIER[0] = tier
     seed = int(os.environ.get('VERIF_SEED', '0'))
     t0 = time.time()
     known = json.load(open(os.path.join(VERIF, 'known_findings.json')))
